@@ -82,6 +82,14 @@ def gen_scenario(seed, index, faulty):
         ops.append(c)
     scen = {"label": f"seed:{s}", "spec": spec, "regs": regs, "corpus": corpus, "history": ops,
             "shape": shape, "fault": None}
+    if rng.random() < 0.3 and not any(m["body"][0] == "fnext" for m in spec["methods"].values()):
+        # a second, independent function in the same module (possibly with the same name, as
+        # `@f.variant def f` or a factory would produce); part of the history goes to it
+        regs2 = [[m] for m in rng.sample(mids, rng.randint(2, len(mids)))]
+        scen["second"] = {"regs": regs2, "same_name": rng.random() < 0.6}
+        for c in ops:
+            if rng.random() < 0.4:
+                c["on"] = "g"
     if faulty:
         at = rng.randrange(len(ops))
         kind = weighted(rng, [("crash", 6), ("hook", 4)])
@@ -130,6 +138,13 @@ def execute(scen):
     begin_run()
     spec, regs = scen["spec"], scen["regs"]
     h = Harness(spec, regs)
+    second = scen.get("second")
+    if second:
+        g = h.w.new_func("g")
+        if second["same_name"]:
+            g.rename("f", "f")
+        for r in second["regs"]:
+            h.w.register("g", r[0], r[1] if len(r) > 1 else None)
     f = scen["fault"]
     violation = None
     trace = []
@@ -139,17 +154,19 @@ def execute(scen):
     fired = False
     prev_state = cache_state(h)
     for i, c in enumerate(scen["history"]):
+        target = "g" if (second and c.get("on") == "g") else "f"
+        tregs = second["regs"] if target == "g" else regs
         if f is not None and i == f["at"]:
             if f["kind"] == "crash":
                 sim = Sim()
-                out, exc, _ = sim.run(lambda: h.w.call("f", c), crash_at=f["k"], crash_exc=f["exc"])
+                out, exc, _ = sim.run(lambda: h.w.call(target, c), crash_at=f["k"], crash_exc=f["exc"])
                 fired = bool(sim.crash_fired)
                 if exc is not None:
                     out = ["raised", type(exc).__name__]
             else:
                 h.w.hooks.plan = [{"hook": None, "nth": h.w.hooks.total + f["nth"], "exc": f["exc"]}]
                 sim = Sim()
-                out, exc, _ = sim.run(lambda: h.w.call("f", c))
+                out, exc, _ = sim.run(lambda: h.w.call(target, c))
                 fired = bool(h.w.hooks.fired)
                 h.w.hooks.plan = []
                 if exc is not None:
@@ -159,7 +176,7 @@ def execute(scen):
                 continue
             # the fault did not fire: the call is an ordinary one
         else:
-            out = h.w.call("f", c)
+            out = h.w.call(target, c)
             trace.append(out)
         st = cache_state(h)
         if st != prev_state and i > 0:
@@ -167,7 +184,8 @@ def execute(scen):
         transitions.append(stable_hash([prev_state, json.dumps(c, sort_keys=True)]))
         states.append(st)
         prev_state = st
-        ref = ref_outcomes(spec, regs, [c], scen["label"])[0]
+        cc = {k: v for k, v in c.items() if k != "on"}
+        ref = ref_outcomes(spec, tregs, [cc], scen["label"])[0]
         if out != ref:
             violation = {"clause": "a call's outcome in a history differs from the same call made first on a fresh function",
                          "op_index": i, "call": c, "observed": out, "expected": ref,
